@@ -48,7 +48,38 @@ fn main() {
             std::process::exit(2)
         })
     });
-    let code = match (id.as_str(), art) {
+    let id2 = id.clone();
+    let r = std::panic::catch_unwind(std::panic::AssertUnwindSafe(|| run_check(&id, tier, art)));
+    let code = match r {
+        Ok(c) => c,
+        Err(e) => {
+            // a panic escaped a harness: if it was raised inside the subject (absolute source
+            // path) it is a finding about the subject that the harness failed to localise;
+            // otherwise the machinery itself is broken
+            let loc = last_panic_loc();
+            let msg = panic_msg(e);
+            if loc.starts_with('/') {
+                let dir = verif_dir().join("out").join(&id2);
+                let _ = std::fs::create_dir_all(&dir);
+                let path = dir.join("escaped-panic.json");
+                let art = serde_json::json!({"property": id2, "signature": format!("panic/{}", panic_site()),
+                    "detail": format!("panic escaped the harness: {} at {}", msg, loc), "replay": {"note": "re-run the check; the harness did not isolate the failing case"}});
+                let _ = std::fs::write(&path, serde_json::to_string_pretty(&art).unwrap());
+                println!("VIOLATION property={} replay={}", id2, path.display());
+                println!("  signature: panic/{}", panic_site());
+                println!("  detail: panic escaped the harness: {} at {}", msg, loc);
+                1
+            } else {
+                eprintln!("MACHINERY ERROR: harness panicked: {} at {}", msg, loc);
+                2
+            }
+        }
+    };
+    std::process::exit(code);
+}
+
+fn run_check(id: &str, tier: Tier, art: Option<serde_json::Value>) -> i32 {
+    let code = match (id, art) {
         #[cfg(feature = "m_asm")]
         ("C15", None) => mc::asm::run(tier),
         #[cfg(feature = "m_asm")]
@@ -134,5 +165,5 @@ fn main() {
             2
         }
     };
-    std::process::exit(code);
+    code
 }
